@@ -178,6 +178,27 @@ def main(tier):
             elif satisfiable_known(mode, s) and not any_yield and not seed_yield and not all_starved and not any(c.status.startswith("error") for c in cs):
                 chk.add_failure(cs[0].input(), {"what": "satisfiable request ends without yielding any value", "status": cs[0].status}, explain(mode, s, "empty-but-satisfiable"))
         chk.evaluations += sum(len(c.items) + 1 for c in cases)
+    # ---- long prefixes: productivity is about EVERY next(), also far down the stream (beyond two full rounds of the
+    # 1 + 10 + 100 windows of random_ints): cheap unbounded requests, 260 / 700 results, statuses and values against the model
+    ln = 260 if quick else 700
+    long_cases = 0
+    for mode in "TF":
+        lspecs = [s_ for s_ in G.long_specs(mode) if s_[0] not in ("and", "or")]  # & and | are not among the kinds C11 lists
+        lcases = G.run_cases(mode, lspecs, ln, G.long_tapes(rng, ln), rng)
+        long_cases += len(lcases)
+        for c in lcases:
+            if c.dis:
+                dis_all.append({"input": c.input(), **c.dis})
+            if c.status.startswith("error"):
+                chk.add_failure(c.input(), {"what": f"next() failed with an internal error ({c.status}) after {len(c.items)} values (long prefix)"}, explain(mode, c.spec, c.status))
+            elif c.status == "starved" and c.dis:
+                # (a rejection sampler on an adversarial tape starves in the model too: that is not a disagreement and not judged)
+                chk.add_failure(c.input(), {"what": f"next() did not finish within its line-event budget after {len(c.items)} values of the stream, where the model yields (long prefix)"}, explain(mode, c.spec, "no-progress"))
+            if len(c.items) > 222:
+                chk.nontrivial.add((mode, G.show_spec(c.spec), c.style, "long"))
+        chk.evaluations += sum(len(c.items) + 1 for c in lcases)
+    n_cases += long_cases
+    chk.extra["long_prefix"] = {"cases": long_cases, "length": ln}
     chk.add_corr("pull/status", n_cases, dis_all, note=f"values + final status of the first {n} next() calls; {G.EVENTS} line events per next (x10 on a starved/yield mismatch), model fuel {G.FUEL}")
     for d in dis_all[:20]:
         chk.add_failure(d["input"], {"what": "model and implementation disagree: " + str(d.get("what")), **{k: v for k, v in d.items() if k not in ("input", "what")}}, None)
